@@ -35,7 +35,8 @@ type Options struct {
 	Witnesses     int  // number of end-of-path models to sample for native validation
 	Thorough      bool
 	Deadline      time.Time
-	ForcePrefix   []int // forced initial decisions (work splitting)
+	ForcePrefix   []int // work splitting: the i-th decision only takes alternatives c with c % ForceMod[i] == ForcePrefix[i]
+	ForceMod      []int
 }
 
 func DefaultOptions() Options {
@@ -118,6 +119,8 @@ type decision struct {
 	n       int // number of alternatives; 0 = open-ended (concretize: 2)
 	payload uint64
 	forced  bool
+	mod     int    // forced decisions: modulus of the residue class this job explores
+	res     int
 	pushed  bool   // the chosen alternative is on the solver stack
 	feas    []bool // feasibility of each alternative under the path condition at first visit (nil for forced)
 	models  []map[string]uint64 // a model per feasible alternative, when known
@@ -251,8 +254,12 @@ func (in *Interp) Run(fn *ssa.Function) *Result {
 	}
 	in.res = res
 	in.decisions = nil
-	for _, c := range in.opts.ForcePrefix {
-		in.decisions = append(in.decisions, decision{choice: c, n: c + 1, forced: true})
+	for i, c := range in.opts.ForcePrefix {
+		mod := 1 << 30
+		if i < len(in.opts.ForceMod) && in.opts.ForceMod[i] > 0 {
+			mod = in.opts.ForceMod[i]
+		}
+		in.decisions = append(in.decisions, decision{choice: c, n: c + 1, forced: true, mod: mod, res: c})
 	}
 	in.synced = 0
 	nForced := len(in.opts.ForcePrefix)
@@ -283,9 +290,12 @@ func (in *Interp) Run(fn *ssa.Function) *Result {
 		// backtrack: find the deepest decision with an untried feasible alternative
 		i := len(in.decisions) - 1
 		next := -1
-		for i >= nForced {
+		for i >= 0 {
 			d := &in.decisions[i]
 			for c := d.choice + 1; c < d.n; c++ {
+				if d.forced && c%d.mod != d.res {
+					continue
+				}
 				if d.feas == nil || d.feas[c] {
 					next = c
 					break
@@ -296,7 +306,7 @@ func (in *Interp) Run(fn *ssa.Function) *Result {
 			}
 			i--
 		}
-		if i < nForced {
+		if i < 0 {
 			break
 		}
 		// pop solver frames of decisions i..end that are on the stack
@@ -309,6 +319,15 @@ func (in *Interp) Run(fn *ssa.Function) *Result {
 		in.decisions[i].choice = next
 		in.decisions[i].pushed = false
 		in.decisions = in.decisions[:i+1]
+		// forced decisions below the one that advanced start over in their residue class
+		for j := i + 1; j < nForced; j++ {
+			c := in.opts.ForcePrefix[j]
+			mod := 1 << 30
+			if j < len(in.opts.ForceMod) && in.opts.ForceMod[j] > 0 {
+				mod = in.opts.ForceMod[j]
+			}
+			in.decisions = append(in.decisions, decision{choice: c, n: c + 1, forced: true, mod: mod, res: c})
+		}
 	}
 	// unwind solver
 	if in.sol != nil {
@@ -608,8 +627,12 @@ func (in *Interp) decideX(k int, alts []*sym.Term, noCheck bool) int {
 	if in.dpos < len(in.decisions) {
 		d := &in.decisions[in.dpos]
 		in.dpos++
-		if d.forced && d.choice >= k {
-			panic(pathEnd{"infeasible"})
+		if d.forced {
+			if d.choice >= k {
+				d.n = k
+				panic(pathEnd{"infeasible"})
+			}
+			d.n = k // the real arity: further alternatives of this residue class are explored by backtracking
 		}
 		if !d.pushed {
 			// a forced prefix decision, or the alternative chosen by the last backtrack: put it on the solver stack
